@@ -208,7 +208,9 @@ func inWriterDomain(st *State, recv *Term, tname string) bool {
 
 // factsCompatible: no atom is decided differently by the two paths.
 func factsCompatible(a, b *State) bool {
-	for k, v := range a.facts {
+	for _, k := range sortedFactKeys(a) {
+		v := a.facts[k]
+		_ = v
 		if v2, ok := b.facts[k]; ok && v2 != v {
 			return false
 		}
@@ -262,7 +264,9 @@ func checkWireSeq(p *Program, r *Report) {
 				}
 				// path consistent with valType == n ?
 				ok := true
-				for k, v := range s.St.facts {
+				for _, k := range sortedFactKeys(s.St) {
+					v := s.St.facts[k]
+					_ = v
 					t := s.St.fterm[k]
 					if t.Op == "eq" && (t.Args[0] == vtParam || t.Args[1] == vtParam) {
 						c := t.Args[0]
